@@ -173,7 +173,7 @@ def _pipe_cases(tier, rng):
     n = 700 if tier == "quick" else 7000
     for _ in range(n):
         (ta, a), (tb, b) = rng.choice(g), rng.choice(g)
-        yield {"src": ta, "dst": tb, "wiring": rng.choice(("direct", "elementwise", "reduction")),
+        yield {"src": ta, "dst": tb, "wiring": rng.choice(("direct", "elementwise", "reduction", "reduction-mapped-consumer")),
                "validate": rng.random() < 0.85}
 
 
@@ -205,6 +205,14 @@ def _check_pipe(case):
         f = pipefunc(output_name="y", mapspec="x[i] -> y[i]")(producer)
         g = pipefunc(output_name="z", mapspec="y[i] -> z[i]")(consumer)
         edge_ok = ref_compat(case["src"], case["dst"])
+    elif wiring == "reduction-mapped-consumer":  # the consumer maps over another argument and takes y whole
+        def consumer2(y, a):
+            return 1
+        consumer2.__annotations__ = {"y": b, "a": int, "return": int}
+        f = pipefunc(output_name="y", mapspec="x[i] -> y[i]")(producer)
+        g = pipefunc(output_name="z", mapspec="a[j] -> z[j]")(consumer2)
+        src = case["src"] if case["src"][0] == "array" else ("array", case["src"])
+        edge_ok = ref_compat(src, case["dst"])
     else:  # reduction: the consumer receives Array[a]
         f = pipefunc(output_name="y", mapspec="x[i] -> y[i]")(producer)
         g = pipefunc(output_name="z")(consumer)
